@@ -5,6 +5,7 @@ package tlive
 
 import (
 	"fmt"
+	"runtime"
 	"sort"
 	"sync"
 	"sync/atomic"
@@ -27,6 +28,7 @@ type Act struct {
 	AfterUs int64  `json:"after_us,omitempty"` // cancel: not before fireT + AfterUs (when set)
 	Late    bool   `json:"late,omitempty"`     // cancel: use AfterUs
 	Far     bool   `json:"far,omitempty"`      // call: a distant future; not waited for, cancelled by the engine at the end
+	Futs    []int  `json:"futs,omitempty"`     // cancelmany: these futures are cancelled in a tight loop; every one of them gets the interval of the whole loop as its Cancel interval
 }
 
 type Scenario struct {
@@ -139,6 +141,7 @@ type runner struct {
 	snaps   []Snap
 	sealed  int32
 	active  int64 // callbacks running
+	barrier int32
 	panics  []string
 }
 
@@ -260,6 +263,40 @@ func (r *runner) goroutine(g int, start chan struct{}, wg *sync.WaitGroup) {
 			r.mu.Lock()
 			r.futs[i].Cancels = append(r.futs[i].Cancels, [2]int64{c0, c1})
 			r.mu.Unlock()
+		case "cancelmany":
+			ok := true
+			for _, i := range a.Futs {
+				select {
+				case <-r.created[i]:
+				case <-time.After(3 * time.Second):
+					ok = false
+				}
+			}
+			if !ok {
+				continue
+			}
+			hs := make([]timeout.Future, len(a.Futs))
+			r.mu.Lock()
+			for k, i := range a.Futs {
+				hs[k] = r.handles[i]
+			}
+			r.mu.Unlock()
+			c0 := r.now()
+			for _, h := range hs {
+				h.Cancel()
+			}
+			c1 := r.now()
+			r.mu.Lock()
+			for _, i := range a.Futs {
+				r.futs[i].Cancels = append(r.futs[i].Cancels, [2]int64{c0, c1})
+			}
+			r.mu.Unlock()
+		case "barrier":
+			// every goroutine of the scenario has exactly one barrier act: spin until all arrived
+			atomic.AddInt32(&r.barrier, 1)
+			for dl := time.Now().Add(3 * time.Second); atomic.LoadInt32(&r.barrier) < int32(r.sc.NG) && time.Now().Before(dl); {
+				runtime.Gosched()
+			}
 		case "snap":
 			r.snap()
 		case "sleep":
